@@ -171,6 +171,13 @@ func runMerge(
 	if !strings.HasPrefix(name, "heads/") {
 		return fmt.Errorf("%q is not a branch name", args[0])
 	}
+	// the branch is moved relative to its current head: a name such as "main~1"
+	// resolves to an older commit, and merging into that would rewind the branch
+	if head, err := ref.GetRef(rs, name); err != nil {
+		return err
+	} else if !bytes.Equal(head, sum) {
+		return fmt.Errorf("%q is not the head of branch %q", args[0], strings.TrimPrefix(name, "heads/"))
+	}
 	commits := [][]byte{sum}
 	commitNames := []string{displayableCommitName(args[0], sum)}
 	for _, s := range args[1:] {
